@@ -95,6 +95,12 @@ namespace w09 {
 namespace w19 {
 #include "c19.cpp"
 }
+namespace w07 {
+#include "c07.cpp"
+}
+namespace w14 {
+#include "c14.cpp"
+}
 #undef PROP_ID
 #undef PROP_MAXLEN_QUICK
 #undef PROP_MAXLEN_THOROUGH
@@ -117,6 +123,7 @@ struct Sub {
 };
 
 void no_setup(Ctx&) {}
+void w14_setup(Ctx& c) { w14::prop_setup(c); }
 
 std::vector<Sub>& subs() {
     static std::vector<Sub> S = {
@@ -130,6 +137,8 @@ std::vector<Sub>& subs() {
         {"C08", w08::prop, no_setup, 400, nullptr, {}},
         {"C09", w09::prop, w09::prop_setup, 300, nullptr, {}},
         {"C19", w19::prop, w19::prop_setup, 200, nullptr, {}},
+        {"C07", w07::prop, w07::prop_setup, 400, nullptr, {}},
+        {"C14", w14::prop, w14_setup, 300, "corpus/C14", {}},
     };
     return S;
 }
